@@ -1372,3 +1372,156 @@ Qed.
 Lemma never_lost_in_flight w t ups sched :
   Inv w t -> EL (run_sched sched (cinit t ups)).
 Proof. intro H. apply EL_run, EL_init, (Inv_EdgeOK w), H. Qed.
+
+(* ================================================================== *)
+(* 9. The full statements, where the code falls short, and what holds  *)
+(* ================================================================== *)
+
+(* "after any sequence of updates every role reports the combination of its children", for
+   every tree as the loader leaves it *)
+Definition fold_statement : Prop :=
+  forall t0 ops p n,
+    get_sub p (run_ops ops (fresh t0)) = Some n -> is_agg n = true ->
+    st_of n = spec_state (crit_states n) /\ stat_of n = spec_status (leaf_stats n).
+
+(* C11-a: an aggregator whose only child is a non-critical task, next to a critical task;
+   the critical task goes to CONFIGURED: the root says MIXED *)
+Definition wit_a_tree : rtree :=
+  Agg STANDBY INACTIVE [Agg STANDBY INACTIVE [Leaf false STANDBY INACTIVE];
+                        Leaf true STANDBY INACTIVE].
+Definition wit_a_ops : list op := [OpState [1%nat] CONFIGURED].
+
+Lemma fold_statement_refuted : ~ fold_statement.
+Proof.
+  intro H. specialize (H wit_a_tree wit_a_ops [] _ eq_refl eq_refl).
+  vm_compute in H. destruct H as [H _]. discriminate.
+Qed.
+
+Lemma fold_partial t0 ops p n :
+  all_counted t0 = true ->
+  get_sub p (run_ops ops (fresh t0)) = Some n -> is_agg n = true ->
+  st_of n = spec_state (crit_states n) /\ stat_of n = spec_status (leaf_stats n).
+Proof.
+  intros Hc Hg Ha. eapply deep_spec; [|exact Hg|exact Ha].
+  apply run_ops_Inv, fresh_strong_iff, Hc.
+Qed.
+
+Lemma fold_consistent t ops p n :
+  Inv false t ->
+  get_sub p (run_ops ops t) = Some n -> is_agg n = true ->
+  st_of n = spec_state (crit_states n) /\ stat_of n = spec_status (leaf_stats n).
+Proof.
+  intros Hi Hg Ha. eapply deep_spec; [|exact Hg|exact Ha]. apply run_ops_Inv, Hi.
+Qed.
+
+(* "an ERROR is never invented at the root, also when updates arrive concurrently" *)
+Definition not_invented_statement : Prop :=
+  forall t0 ups sched,
+    let c := run_sched sched (cinit (fresh t0) ups) in
+    quiescent c = true ->
+    st_of (c_tree c) = ERROR -> In ERROR (crit_states (c_tree c)).
+
+(* C11-b: ERROR is written to a leaf, the call is overtaken by a complete STANDBY update of the
+   same leaf, then the stale ERROR is merged upwards *)
+Definition wit_b_tree : rtree :=
+  Agg STANDBY INACTIVE [Agg STANDBY INACTIVE [Leaf true STANDBY INACTIVE; Leaf true STANDBY INACTIVE];
+                        Leaf true STANDBY INACTIVE].
+Definition wit_b_ups : list (list nat * state) := [([0; 0]%nat, ERROR); ([0; 0]%nat, STANDBY)].
+Definition wit_b_sched : list nat := [0; 1; 1; 1; 1; 1; 1; 0; 0; 0; 0; 0]%nat.
+
+Lemma not_invented_refuted : ~ not_invented_statement.
+Proof.
+  intro H. specialize (H wit_b_tree wit_b_ups wit_b_sched eq_refl eq_refl).
+  vm_compute in H. intuition discriminate.
+Qed.
+
+Lemma wit_b_all_counted : all_counted wit_b_tree = true.
+Proof. reflexivity. Qed.
+
+(* without interleaving nothing is invented: a consistent tree reports ERROR exactly where a
+   critical task below is in ERROR *)
+Lemma error_iff_seq t ops p n :
+  Inv false t ->
+  get_sub p (run_ops ops t) = Some n -> is_agg n = true ->
+  (st_of n = ERROR <-> In ERROR (crit_states n)).
+Proof.
+  intros Hi Hg Ha. destruct (fold_consistent t ops p n Hi Hg Ha) as [Hs _].
+  rewrite Hs, <- foldX_spec. apply foldX_ERROR.
+Qed.
+
+(* the two folds, as the text puts them *)
+Lemma foldX_contrib_filter cs :
+  foldX (map contrib cs) = foldX (map st_of (filter counted cs)).
+Proof.
+  induction cs as [|c cs IH]; [reflexivity|].
+  cbn [map filter]. unfold contrib at 1. destruct (counted c).
+  - cbn [map]. rewrite !foldX_cons, IH. reflexivity.
+  - rewrite foldX_cons, stateX_INV_l. exact IH.
+Qed.
+
+Lemma fold_state_text cs : fold_state cs = spec_state (map st_of (filter counted cs)).
+Proof. rewrite fold_state_contrib, foldX_contrib_filter. apply foldX_spec. Qed.
+
+Lemma fold_status_text cs : fold_status cs = spec_status (map stat_of cs).
+Proof. rewrite fold_status_foldS. apply foldS_spec. Qed.
+
+Lemma state_product_laws :
+  (forall a b, stateX a b = stateX b a) /\
+  (forall a b c, stateX a (stateX b c) = stateX (stateX a b) c) /\
+  (forall a, stateX a a = a) /\
+  (forall a, stateX ERROR a = ERROR) /\
+  (forall a, stateX INVARIANT a = a).
+Proof.
+  repeat split; intros.
+  - apply stateX_comm. - apply stateX_assoc. - apply stateX_idem.
+  - apply stateX_ERROR_l. - apply stateX_INV_l.
+Qed.
+
+Lemma status_product_laws :
+  (forall a b, statusX a b = statusX b a) /\
+  (forall a b c, statusX a (statusX b c) = statusX (statusX a b) c) /\
+  (forall a, statusX a a = a) /\
+  (forall a, statusX UNDEFINED a = UNDEFINED) /\
+  (forall a, a <> UNDEFINED -> statusX UNDEPLOYABLE a = UNDEPLOYABLE) /\
+  statusX ACTIVE INACTIVE = PARTIAL.
+Proof.
+  repeat split; intros.
+  - apply statusX_comm. - apply statusX_assoc. - apply statusX_idem.
+  - apply statusX_UNDEF_l. - apply statusX_UNDEPL; assumption.
+Qed.
+
+Lemma stateX_tied :
+  (forall a b, enum_lookup (N_of_state a) (N_of_state b) stateX_enum = Some (N_of_state (stateX a b))) /\
+  length stateX_enum = 64%nat /\
+  map N_of_state all_states =
+  [go_state_UNKNOWN; go_state_STANDBY; go_state_CONFIGURED; go_state_RUNNING;
+   go_state_ERROR; go_state_DONE; go_state_MIXED; go_state_INVARIANT] /\
+  (forall s, In s all_states).
+Proof.
+  split; [exact stateX_enum_complete|]. split; [exact stateX_enum_size|].
+  split; [exact state_codes_ok|exact all_states_complete].
+Qed.
+
+Lemma statusX_tied :
+  (forall a b, enum_lookup (N_of_status a) (N_of_status b) statusX_enum = Some (N_of_status (statusX a b))) /\
+  length statusX_enum = 25%nat /\
+  map N_of_status all_statuses =
+  [go_status_UNDEFINED; go_status_INACTIVE; go_status_PARTIAL; go_status_ACTIVE;
+   go_status_UNDEPLOYABLE] /\
+  map N_of_status all_statuses =
+  [src_status_UNDEFINED; src_status_INACTIVE; src_status_PARTIAL; src_status_ACTIVE;
+   src_status_UNDEPLOYABLE] /\
+  (forall s, In s all_statuses).
+Proof.
+  split; [exact statusX_enum_complete|]. split; [exact statusX_enum_size|].
+  split; [exact (proj1 status_codes_ok)|]. split; [exact (proj2 status_codes_ok)|].
+  exact all_statuses_complete.
+Qed.
+
+Lemma order_independent cs cs' :
+  Permutation cs cs' -> fold_state cs = fold_state cs' /\ fold_status cs = fold_status cs'.
+Proof. intro H. split; [apply fold_state_perm, H|apply fold_status_perm, H]. Qed.
+
+Lemma loaded_invariant t :
+  Inv true (fresh t) /\ (Inv false (fresh t) <-> all_counted t = true).
+Proof. split; [apply fresh_weak|apply fresh_strong_iff]. Qed.
